@@ -126,7 +126,7 @@ def check(ctx):
                     for p in ([pl] if pl is not None else []) + [o.place for o in s.rv.ops if o.place is not None]:
                         fs = p.fields()
                         if len(fs) >= 2 and fs[0] == "self" and "*" in p.proj:
-                            read.add(fs[1])
+                            read.update(fs[1:])     # every component: self.settings.auth_secret reads `auth_secret`
                         elif fs and "*" in p.proj:
                             # through a reference held in a local (e.g. the `self` of a helper merged into this body)
                             base = an.local_expr(p.local, (b.idx, b.stmts.index(s)), 0)
@@ -134,7 +134,7 @@ def check(ctx):
                             while root[0] in ("ref", "deref", "mut"):
                                 root = flow.strip(root[1])
                             if (root[0] == "field" and root[2] == "self" and flow.strip(root[1])[0] == "env") or (root[0] == "param" and root[2] == "self"):
-                                read.add(fs[0])
+                                read.update(fs)
             t = b.term
             if t.kind == "switch" and t.discr.place is not None:
                 pass
